@@ -84,12 +84,13 @@ var props = []propCfg{
 		DesignRef: "DESIGN.md section 4, C14",
 	},
 	{
-		ID: "C10", Pkg: "props/c10",
+		ID: "C10", Pkg: "props/c10", Needs: []string{"fc", "gocache"},
 		Tests: []testCfg{
 			{Name: "TestOpEqual", Rapid: true, Quick: 32000, Thorough: 2400000, ShardsQ: 12, ShardsT: 16},
 			{Name: "TestLibraryPaths", Rapid: true, Quick: 4000, Thorough: 100000, ShardsQ: 4, ShardsT: 4},
+			{Name: "TestEndToEnd", Rapid: true, Quick: 96, Thorough: 1600, ShardsQ: 16, ShardsT: 16},
 		},
-		Rule:      "in-process: Go types mirroring fc's representation of records (exported and lower-case fields, generic, recursive), unions (interface + case structs), tuples and slices, 24 root types up to slice nesting 3; rapid draws a model tree, builds the Go value through a drawn construction path per slice (exact, nil, grown by append, spare capacity with foreign data in the hidden tail, middle of a larger array, empty suffix), and forms pairs (rebuilt copy by other paths | one place mutated | independent) and triples; frt.OpEqual/OpNotEqual are compared with reference equality on the model trees, both argument orders, plus reflexivity and transitivity. A second property compares the same contents produced by 13 different pkg/slice call paths. Non-trivial = a value containing a slice or a lower-case-field record; distinct = hash of (type, model trees incl. paths).",
+		Rule:      "in-process: Go types mirroring fc's representation of records (exported and lower-case fields, generic, recursive), unions (interface + case structs), tuples and slices, 24 root types up to slice nesting 3; rapid draws a model tree, builds the Go value through a drawn construction path per slice (exact, nil, grown by append, spare capacity with foreign data in the hidden tail, middle of a larger array, empty suffix), and forms pairs (rebuilt copy by other paths | one place mutated | independent) and triples; frt.OpEqual/OpNotEqual are compared with reference equality on the model trees, both argument orders, plus reflexivity and transitivity. A second property compares the same contents produced by 13 different pkg/slice call paths. End to end: programs of the `equality` profile of the C01 generator (records with lower-case field names, = / <> on composite values, empty slices via slice.New and via library calls) are transpiled, compiled and run and their printed booleans compared with the reference evaluator. Non-trivial = a value containing a slice or a lower-case-field record (end to end: a program comparing composite values); distinct = hash of (type, model trees incl. paths).",
 		Technique: "property-based testing (rapid) against reference structural equality on model trees; metamorphic (same contents via different construction paths)",
 		Assumptions: []string{
 			"first-order values only (no functions, no floats, no dicts), as the property states",
